@@ -43,6 +43,10 @@ type APICase struct {
 	// FailFirstAt > 0: before anything else is written, the finished value is written once to a
 	// destination that fails after FailFirstAt-1 bytes; the value must still write correctly afterwards.
 	FailFirstAt int `json:",omitempty"`
+	// DirectAppend: the tracks after the first one (after the intermediate write, if there is one)
+	// are appended to the exported Tracks field instead of being handed to SMF.Add — the two ways
+	// of filling a value are mixed
+	DirectAppend bool `json:",omitempty"`
 }
 
 // Model is the pure model of what the history means (never consults the library).
@@ -167,7 +171,11 @@ func BuildLib(c APICase) *smf.SMF {
 				tr.Close(op.Delta)
 			}
 		}
-		s.Add(tr)
+		if c.DirectAppend && i >= max(1, c.WriteAfter) {
+			s.Tracks = append(s.Tracks, tr)
+		} else {
+			s.Add(tr)
+		}
 	}
 	if c.FailFirstAt > 0 {
 		s.WriteTo(&failAfter{budget: c.FailFirstAt - 1})
@@ -348,6 +356,15 @@ func API(t *rapid.T, o APIOpts) APICase {
 		c.ViaRead = rapid.Bool().Draw(t, "viaRead")
 		c.ToggleRS = rapid.IntRange(0, 2).Draw(t, "toggleRunningStatus") == 0
 	}
+	if ntr >= 2 && rapid.IntRange(0, 5).Draw(t, "sameTempoInEveryTrack?") == 0 {
+		// the usual multi-track layout: every track starts with the same tempo event at tick 0
+		for i := range c.Tracks {
+			c.Tracks[i].Ops = append([]Op{{Kind: "add", Delta: 0, Msgs: []hx.B{hx.B(smf.MetaTempo(120)), hx.B(smf.MetaTempo(120))}}}, c.Tracks[i].Ops...)
+		}
+	}
+	if ntr >= 2 && rapid.IntRange(0, 4).Draw(t, "directAppend?") == 0 {
+		c.DirectAppend = true
+	}
 	if rapid.IntRange(0, 5).Draw(t, "failedWriteFirst?") == 0 {
 		c.FailFirstAt = rapid.OneOf(rapid.IntRange(1, 40), rapid.IntRange(1, 400)).Draw(t, "failFirstAt")
 	}
@@ -415,6 +432,9 @@ func APIClasses(c APICase) (classes []string, nontrivial bool) {
 	if c.ToggleRS {
 		set["running-status-option-toggled"] = true
 	}
+	if c.DirectAppend {
+		set["tracks-appended-to-the-field"] = true
+	}
 	if c.WriteAfter > 0 && c.ViaRead {
 		set["read-modify-write"] = true
 	} else if c.WriteAfter > 0 {
@@ -432,3 +452,39 @@ func (c APICase) String() string { return fmt.Sprintf("%+v", ModelOf(c)) }
 type nopLogger struct{}
 
 func (nopLogger) Printf(format string, vals ...interface{}) {}
+
+// ExactSizeTrack builds a history with one small first track and a last track whose encoded body
+// (the bytes after the MTrk chunk header) has exactly the given size: one sysex sized to fit.
+func ExactSizeTrack(body int, noRunningStatus bool) APICase {
+	mk := func(payload int) APICase {
+		m := make([]byte, payload+2)
+		for i := range m {
+			m[i] = byte(i*11) & 0x7F
+		}
+		m[0], m[len(m)-1] = 0xF0, 0xF7
+		return APICase{Ctor: "NewSMF1", NoRunningStatus: noRunningStatus, Tracks: []TrackOps{
+			{Ops: []Op{{Kind: "add", Delta: 0, Msgs: []hx.B{{0xC0, 1}}}}},
+			{Ops: []Op{{Kind: "add", Delta: 1, Msgs: []hx.B{{0x90, 1, 2}}}, {Kind: "add", Delta: 2, Msgs: []hx.B{m}}, {Kind: "add", Delta: 0, Msgs: []hx.B{{0x80, 1, 0}}}}},
+		}}
+	}
+	size := func(c APICase) int {
+		var buf bytes.Buffer
+		BuildLib(c).WriteTo(&buf)
+		b := buf.Bytes()
+		i := bytes.LastIndex(b, []byte("MTrk"))
+		if i < 0 || i+8 > len(b) {
+			return -1
+		}
+		return len(b) - i - 8
+	}
+	payload := body - 20
+	for tries := 0; tries < 4; tries++ {
+		c := mk(payload)
+		got := size(c)
+		if got == body {
+			return c
+		}
+		payload += body - got
+	}
+	return mk(payload)
+}
